@@ -802,7 +802,7 @@ protected:
 	template<typename NativeInt>
 	typename std::enable_if< std::is_unsigned_v<NativeInt>,
 		NativeInt>::type to_unsigned() const {
-		return NativeInt(_block.to_long_long());
+		return static_cast<NativeInt>(to_signed<long long>()); // the integer part of the value, not the raw bit pattern
 	}
 
 	template<typename TargetFloat>
